@@ -129,11 +129,21 @@ def all_units():
     return sorted(compile_db()[0].keys())
 
 
-def _write_cdb(units, d):
+def _entry_for(u, witness):
     db, _ = compile_db()
+    if u in db:
+        return db[u]
+    like = witness[u]
+    e = dict(db[like])
+    e["file"] = u
+    e["command"] = e["command"].replace(like, u)
+    return e
+
+
+def _write_cdb(units, d, witness):
     os.makedirs(d, exist_ok=True)
     with open(os.path.join(d, "compile_commands.json"), "w") as f:
-        json.dump([db[u] for u in units], f)
+        json.dump([_entry_for(u, witness) for u in units], f)
 
 
 def _run_batch(args):
@@ -146,15 +156,22 @@ def _run_batch(args):
     return idx, r.returncode, r.stderr[-3000:]
 
 
-def extract(units, astre=""):
-    """Extract facts for the given units (absolute paths); cached."""
+def extract(units, astre="", witness=None):
+    """Extract facts for the given units (absolute paths); cached.
+    witness: {path of a unit under /verif/witness: repo unit whose flags it borrows}."""
     ensure_tool()
     db, route = compile_db()
-    units = sorted(set(units))
-    missing = [u for u in units if u not in db]
+    witness = dict(witness or {})
+    units = sorted(set(units) | set(witness))
+    missing = [u for u in units if u not in db and u not in witness]
+    missing += [w for w, like in witness.items() if like not in db]
     if missing:
         raise AnalysisBroken("units not in the compile database: %s" % missing)
-    key = _sha((tree_hash() + "|" + "\n".join(units) + "|" + astre).encode())[:20]
+    wh = ""
+    for w in sorted(witness):
+        with open(w, "rb") as f:
+            wh += _sha(f.read())
+    key = _sha((tree_hash() + "|" + "\n".join(units) + "|" + astre + wh).encode())[:20]
     d = os.path.join(CACHE, "facts", key)
     done = os.path.join(d, "DONE")
     t0 = time.time()
@@ -167,7 +184,7 @@ def extract(units, astre=""):
         for i, u in enumerate(order):
             batches[i % nb].append(u)
         cdbdir = os.path.join(d, "cdb")
-        _write_cdb(units, cdbdir)
+        _write_cdb(units, cdbdir, witness)
         jobs = [(i, b, cdbdir, os.path.join(d, "b%d.json" % i), astre)
                 for i, b in enumerate(batches)]
         with ThreadPoolExecutor(max_workers=nb) as ex:
